@@ -13,10 +13,12 @@ ap.add_argument("ns", nargs="*")
 ap.add_argument("--also", default="")
 ap.add_argument("--shards", default="8")
 ap.add_argument("--skip-suite", action="store_true")
+ap.add_argument("--wt", default="", help="worktree (default /tmp/seed-<pid>)")
+ap.add_argument("--offset", type=int, default=0, help="added to N for the id under /verif/seeded (second round)")
 a = ap.parse_args()
 pid = a.pid.lower()
 PID = pid.upper()
-wt = "/tmp/seed-" + pid
+wt = a.wt or "/tmp/seed-" + pid
 env = dict(os.environ, GOFLAGS="-mod=mod", GOPROXY="off", GOSUMDB="off", GOTOOLCHAIN="local")
 base = json.load(open("/root/.vp/BASELINE.json"))["stable_pass"]
 
@@ -39,7 +41,7 @@ def suite_ok():
 ns = a.ns or sorted(d for d in os.listdir(wt + "/SEED") if d.isdigit())
 for n in ns:
     sd = "%s/SEED/%s" % (wt, n)
-    out = {"id": "%s-%s" % (PID, n), "property": PID}
+    out = {"id": "%s-%s" % (PID, int(n) + a.offset), "property": PID}
     try:
         meta = json.load(open(sd + "/meta.json"))
     except Exception as ex:
@@ -72,7 +74,7 @@ for n in ns:
     out["demo_without_change_rc"] = d0.returncode
     out["confirmed"] = bool(out["builds"] and d1.returncode != 0 and d0.returncode == 0 and out.get("suite_unchanged", True))
     out["caught_by"] = [c for c, v in checks.items() if v["rc"] == 1]
-    dst = "/verif/seeded/%s-%s" % (PID, n)
+    dst = "/verif/seeded/" + out["id"]
     shutil.rmtree(dst, ignore_errors=True)
     os.makedirs(dst)
     shutil.copy(sd + "/patch.diff", dst + "/patch.diff")
